@@ -1,7 +1,7 @@
 (* The saver's view (SaveModel.sobj) of an object the Touchstone / NPD loader models return, for the statement
    "a loaded object with >= 1 port and >= 1 frequency is accepted by vnadata_cksave".  The z0 tests are made as
    the C code makes them on doubles: "creal(z0) <= 0.0" (false for a NaN) and "z0[i] != z0[0]" (true for a NaN).
-   [promote]: the save name ends in .ts, so that a Touchstone 1 object may be promoted to version 2.
+   The file type the saver works with depends on the class of the save NAME (vnadata_save.c, "Set the file type").
    No proofs in this file. *)
 Require Import List NArith ZArith Bool.
 Import ListNotations.
@@ -18,12 +18,29 @@ Definition z0_pos (l : list xnum) : bool := forallb (fun z => negb (xle z xq0)) 
 Definition z0_equal (l : list xnum) : bool :=
   match l with [] => true | z :: r => forallb (fun y => negb (xneq y z)) r end.
 
-(* as the loader leaves it: format = the single entry of _vnadata_set_simple_format *)
-Definition ts_sobj (promote : bool) (o : tsobj) : sobj :=
+(* the loader's own test (after fix DB93): x > 0.0, which also excludes a NaN *)
+Definition z0_gt0 (l : list xnum) : bool := forallb (fun z => xlt xq0 z) l.
+
+(* the class of the file name given to vnadata_save / vnadata_cksave (_vnadata_parse_filename) *)
+Inductive nameclass := NameTs | NameSnp | NameNpd | NameOther.
+(* "Set the file type" of vnadata_save_common: a .ts name on a Touchstone 1 object keeps version 1 and allows the
+   promotion; any other recognised suffix replaces the object's file type; an unrecognised one keeps it *)
+Definition save_filetype (nc : nameclass) (v2 : bool) : filetype * bool :=
+  match nc, v2 with
+  | NameTs, false => (TS1, true)
+  | NameTs, true => (TS2, false)
+  | NameSnp, _ => (TS1, false)
+  | NameNpd, _ => (NPD, false)
+  | NameOther, v => (if v then TS2 else TS1, false)
+  end.
+
+(* a loaded Touchstone object as the loader leaves it (format = the single entry of _vnadata_set_simple_format),
+   saved under a name of class nc *)
+Definition ts_sobj (nc : nameclass) (o : tsobj) : sobj :=
   {| o_type := ts_ptype (TsParse.o_type o); o_rows := TsParse.o_ports o; o_ports := TsParse.o_ports o;
      o_freqs := length (TsParse.o_freqs o); o_per_f_z0 := false;
      o_z0_real_pos := z0_pos (TsParse.o_z0 o); o_z0_equal := z0_equal (TsParse.o_z0 o);
-     o_filetype := if TsParse.o_v2 o then TS2 else TS1; o_promote := promote;
+     o_filetype := fst (save_filetype nc (TsParse.o_v2 o)); o_promote := snd (save_filetype nc (TsParse.o_v2 o));
      o_format := [Build_entry (ts_ptype (TsParse.o_type o)) (ts_form (TsParse.o_fmt o))] |}.
 
 (* an NPD object with the format vector [fmt] ([] = the default of vnadata_set_format(vdp, NULL)) *)
